@@ -109,6 +109,15 @@ void arithCase(Ctx &c, Rng &g) {
                family);
     }
     (void)om;
+    {
+      const std::string lie = predicateNearMisses(a, g);
+      if (!lie.empty()) c.violation("C15", "sweep/near-miss", sw.ctx + ": " + lie);
+      const size_t lo = std::max(wa.start, wb.start), hi = std::min(wa.end, wb.end);
+      const bool share = !wa.empty() && !wb.empty() && hi > lo && hi - lo >= 2;
+      if (a.checkOverlap(b) != share || b.checkOverlap(a) != share)
+        c.violation("C15", std::string("sweep/checkOverlap/") + placementName(pl), sw.ctx);
+      c.count("pred:near-misses");
+    }
     if (!model::dzerop(da) && !model::dzerop(db)) {
       Hasher h;
       h.s(sw.ctx);
